@@ -27,6 +27,29 @@ fn arg_value(args: &[String], name: &str) -> Option<String> {
     args.iter().position(|a| a == name).and_then(|i| args.get(i + 1).cloned())
 }
 
+/// A logger that accepts every record and formats it (so that the arguments of every `debug!`/`warn!`
+/// in the library are evaluated) but writes nothing. Applications commonly run with logging enabled;
+/// half of the workers, and every replay, do too.
+struct Sink;
+
+impl log::Log for Sink {
+    fn enabled(&self, _: &log::Metadata) -> bool {
+        true
+    }
+    fn log(&self, record: &log::Record) {
+        let text = format!("{}", record.args());
+        std::hint::black_box(text);
+    }
+    fn flush(&self) {}
+}
+
+static SINK: Sink = Sink;
+
+pub fn enable_logging() {
+    let _ = log::set_logger(&SINK);
+    log::set_max_level(log::LevelFilter::Trace);
+}
+
 fn silence_stdio() {
     // library code prints (println! in predicate detection, child process
     // output echo in run_command); workers report through files only.
@@ -142,6 +165,7 @@ fn main() {
             if std::env::var("ITV_REPLAY_VERBOSE").is_err() {
                 // keep library chatter away, but keep our own stdout: run check, then print
             }
+            enable_logging();
             let code = dispatch!(id.as_str(), do_replay, path);
             std::process::exit(code);
         }
@@ -158,6 +182,7 @@ fn main() {
             };
             let saved = unsafe { libc::dup(1) };
             silence_stdio();
+            enable_logging();
             let r = guarded(|| itv_oracles::run(&target, &data));
             unsafe {
                 libc::dup2(saved, 1);
@@ -221,6 +246,9 @@ fn main() {
                 scratch: PathBuf::from(arg_value(&args, "--scratch").expect("--scratch")),
                 cases_override: arg_value(&args, "--cases").and_then(|s| s.parse().ok()),
             };
+            if wa.worker % 2 == 1 {
+                enable_logging();
+            }
             dispatch!(id.as_str(), run_worker, wa);
         }
         other => {
